@@ -90,8 +90,8 @@ theorem new_data_contiguous (sid : Nat) (sup : Bool) (ops : List Op) (hc : Class
     `CancelWrite` puts the FIN on the last *reliable* frame, which ends below the size written
     (10 of 15 bytes here): the reader can see a clean end-of-stream on a truncated stream. -/
 def finWitnessOps : List Op :=
-  [.write [0, 1, 2, 3, 4, 5, 6, 7, 8, 9], .boundary, .write [10, 11, 12, 13, 14], .close, .cancel 7,
-   .pop 1200 1048576 false]
+  [.write [0, 1, 2, 3, 4, 5, 6, 7, 8, 9], .boundary, .write [10, 11, 12, 13, 14], .close,
+   .pop 1200 1048576 false, .cancel 7, .lost 0, .pop 1200 1048576 false]
 
 instance (s : State) (f : Frame) : Decidable (Faithful s f) := by unfold Faithful; exact inferInstance
 instance (s : State) : Decidable (Live s) := by unfold Live; exact inferInstance
